@@ -1314,9 +1314,9 @@ def _force(x):
     if isinstance(c, bool):
       return _force(x.a if c else x.b)
     sc = z3.simplify(c.z)
-    if z3.is_true(sc):
+    if z3.is_true(sc) or sym.prove(c):
       return _force(x.a)
-    if z3.is_false(sc):
+    if z3.is_false(sc) or sym.prove(sym.snot(c)):
       return _force(x.b)
     return OPS.where(c, _force(x.a), _force(x.b))
   return x()
@@ -1350,7 +1350,7 @@ def split(t, indices_or_sections, axis=0):
   d = t.shape[axis]
   ios = indices_or_sections
   if isinstance(ios, Tensor):
-    n = sym.concrete_int(ios.shape[0])
+    n = sym.concretize(ios.shape[0])
     if n is None:
       raise Unsupported("split at a symbolic number of indices")
     ios = [ios.at((k,)) for k in range(n)]
@@ -1544,6 +1544,7 @@ class Reduction:
       # witness
       w = tuple(SInt(c.fresh_int("w")) for _ in self.axes)
       c.index_terms.extend(w)
+      self.wit[_key(kidx)] = w
       xw = self.x.at(self.full_index(kidx, w))
       c.fact(sym.implies(self._nonempty(), sym.sand(self._in_range(w), eq(res, xw))),
              f"{kind}: attained at a witness index")
@@ -1755,6 +1756,7 @@ class Contraction:
     self.contracted = contracted_dims
     self.f = z3.Function(c.fresh_name(name), *([z3.IntSort()] * len(out_shape)), z3.RealSort())
     self.seen = set()
+    c.ghost.setdefault("contractions", []).append(self)
 
   def value(self, idx):
     c = cur()
